@@ -50,10 +50,42 @@ def ob_add_to_ready_records(run, oid):
     return o
 
 
+def ob_all_notar_fallback_blocks(run, oid):
+    """a slot can hold notar-fallback certificates for several blocks (equivocating leader): the tracker treats every one of them as a potential parent"""
+    prog = run.program("lib")
+    o = run.ob(oid, "the parent-ready tracker walks ALL notarized-fallback blocks of a slot (never just the first)",
+               "with only the first block looked at, which parents become ready depends on the order in which certificates and skips arrived: two nodes holding the same "
+               "certificates disagree on the ready parents", floor=1)
+    n = 0
+    for fn in ("mark_skipped", "mark_notar_fallback", "handle_finalization"):
+        for b in prog.family(PRT + "::" + fn):
+            loops = b.loops()
+            for c in b.calls_to(PRS + "::notar_fallback_blocks"):
+                n += 1
+                # consumers of the iterator: a `next` call outside every loop takes one element only
+                single = []
+                for c2 in b.calls():
+                    last = c2.name.rsplit("::", 1)[-1]
+                    if last in ("next", "nth", "last", "min", "max", "find", "position") and c2.args and K.mentions(b.operand_term(c2.args[0]), lambda y: isinstance(y, tuple) and y and y[0] == "call" and y[3] == c.bb and y[1].endswith("notar_fallback_blocks")):
+                        if last != "next":
+                            single.append((last, c2.span))
+                            continue
+                        # a for-loop creates its iterator BEFORE the loop it drives; `it().next()` creates and consumes it in one go
+                        inner = [nodes for (_h, nodes) in loops if c2.bb in nodes]
+                        innermost = min(inner, key=len) if inner else None
+                        if innermost is None or c.bb in innermost:
+                            single.append((last, c2.span))
+                o.check(not single, "ParentReadyTracker::%s|notar_fallback_blocks|walked-whole" % fn, "every notar-fallback block of the slot is visited (loop / extend), not only the first", c.span, {"single-element consumers": single[:2]})
+    if n == 0:
+        o.missing("calls of ParentReadyState::notar_fallback_blocks in the tracker")
+    return o
+
+
 def check(run, prefix="O7"):
     from . import slots as _SL
     _SL.ob_slot_arithmetic(run, prefix + ".15")
     ob_add_to_ready_records(run, prefix + ".17")
+    ob_all_notar_fallback_blocks(run, prefix + ".19")
     from . import detectors as _DL
     _DL.ob_loop_exits(run, "O7.14", ['consensus::pool'], 'every newly ready (slot, parent) pair must be recorded and announced: a loop that stops early drops the remaining pairs')
     # "skipped as a consequence of a finalization" / "finalized": the tracker learns these only from the FinalizationEvent
